@@ -8,6 +8,7 @@ trap 'rm -rf "$T"' EXIT
 cd /verif
 i=0
 for p in "$@"; do
+  p=$(realpath "$p")
   i=$((i+1))
   d="$T/r$i"
   mkdir -p "$d"
